@@ -82,12 +82,12 @@ BareLen(t, i) == LET last == Min2(Len(t), i + NameMax - 1)
                  IN IF bad = {} THEN last - i + 1 ELSE SetMin(bad) - i
 \* blank-separated words of a text without quotes and backslashes (the word grammar proper is C12's)
 Splittable(t) == \A i \in 1 .. Len(t) : t[i] \notin {SQ, DQ, BSL}
-RECURSIVE WordsFrom(_, _, _)
-WordsFrom(t, i, cur) ==
-    IF i > Len(t) THEN (IF cur = <<>> THEN <<>> ELSE <<cur>>)
-    ELSE IF t[i] \in Blank THEN (IF cur = <<>> THEN WordsFrom(t, i + 1, <<>>) ELSE <<cur>> \o WordsFrom(t, i + 1, <<>>))
-    ELSE WordsFrom(t, i + 1, Append(cur, t[i]))
-Words(t) == WordsFrom(t, 1, <<>>)
+\* (no recursion: arguments can be as long as the line limit)
+Words(t) == LET n == Len(t)
+                starts == {i \in 1 .. n : t[i] \notin Blank /\ (i = 1 \/ t[i - 1] \in Blank)}
+                ends   == {i \in 1 .. n : t[i] \notin Blank /\ (i = n \/ t[i + 1] \in Blank)}
+                Kth(S, k) == CHOOSE x \in S : Cardinality({y \in S : y < x}) = k - 1
+            IN [k \in 1 .. Cardinality(starts) |-> SubSeq(t, Kth(starts, k), Kth(ends, k))]
 Cut(s) == IF Len(s) > Limit THEN SubSeq(s, 1, Limit) ELSE s           \* S: never longer than the limit
 
 (* the variable store: ideal finite map kept as an ascending association list *)
